@@ -59,6 +59,8 @@ CaseVerdict(c) ==
     IN [i |-> idx, treeok |-> PreOK(t1) /\ PreOK(t2) /\ \A j \in 1..Len(c.qs) : WellFormed(c.qs[j]),
         res |-> r, res2 |-> r2,
         dw |-> [j \in 1..Len(c.dw) |-> DistinctWitness(t1, c.qs[c.dw[j][1]], c.qs[c.dw[j][2]])],
+        atomsok |-> \A j \in 1..Len(c.atoms) : /\ Tokenize(c.atoms[j][1]) = <<c.atoms[j][1]>>
+                                                 /\ AtomOf(c.atoms[j][1]) = c.atoms[j][2],
         lawfails |-> IF Len(c.law) = 8 THEN LawFails(r, c.law) ELSE {},
         sibfails |-> {j \in 1..Len(c.qs) : r[j] # r2[j]}]
 
